@@ -145,7 +145,7 @@ impl Property for C10 {
     }
     fn runs(&self, tier: Tier) -> u64 {
         match tier {
-            Tier::Quick => 2_000_000,
+            Tier::Quick => 4_000_000,
             Tier::Thorough => 30_000_000,
         }
     }
